@@ -25,6 +25,7 @@ fn gen_searcher(rng: &mut Rng, pal: &[u8], many_ok: bool) -> SearcherSpec {
     }
     let case = rng.chance(1, 6);
     let mut opts = gen_opts(rng, case);
+    opts.via_ref = false; // (a streamsim-only dimension)
     opts.match_kind = match rng.weighted(&[5, 3, 2]) {
         0 => MKind::Standard,
         1 => MKind::LeftmostFirst,
@@ -290,6 +291,7 @@ pub fn gen_race(seed: u64, idx: u64) -> ThreadScenario {
         dense_depth: *r.pick(&[None, Some(0), Some(1)]),
         byte_classes: true,
         prefilter: wide || r.chance(1, 2),
+        via_ref: false,
     };
     let mut sc = ThreadScenario {
         prop: "C17".into(),
